@@ -289,7 +289,7 @@ Section Pool.
       intros j wj Hne Hj. specialize (Imid j wj Hj). destruct Hra as [(-> & ->)|Hc]; auto.
       intros Hcj. exfalso. pose proof (Ics j wj Hj Hcj). pose proof (Ics k wk Hk Hc). congruence.
     - unfold undone in *. pose proof (count_set_nth (fun wk => negb (is_done wk)) k wk' wk (ws s) Hk) as Hc.
-      rewrite Hd in Hc. simpl in Hc. destruct (is_done wk'); simpl in *; lia.
+      cbv beta in Hc. rewrite Hd in Hc. simpl in Hc. destruct (is_done wk'); simpl in *; lia.
     - rewrite set_nth_length. split; auto. intros; lia.
     - pose proof (count_set_nth is_exited k wk' wk (ws s) Hk) as Hc. lia.
   Qed.
